@@ -143,6 +143,10 @@ def run_e2e(seed, n_cases):
             h["case"] = res.get("case")
             h["rho"] = res.get("rho")
             h["output"] = res.get("output")
+            h["expected_output"] = next((pp.get("expected") for pp in progs if pp["name"] == h["program"]), None)
+            if h["class"] == "e2e-erasure":
+                tw = next((x for x in r["results"] if x["name"] == h["program"] + "_twin"), {})
+                h["expected_output"] = tw.get("output")
         r["programs"] = len(progs)
         json.dump(r, open(jf, "w"))
         return r
@@ -192,7 +196,7 @@ def check_mac(prop, tier, seed):
     if e2_hit and not violation:
         path = write_replay(prop, "oracle-" + e2_hit["class"], {"property": prop, "kind": "e2e-program", "class": e2_hit["class"], "what": e2_hit["what"],
                                                                 "declaration": e2_hit.get("case"), "truth_assignment": e2_hit.get("rho"),
-                                                                "observed_output": e2_hit.get("output"), "program": e2_hit.get("source"),
+                                                                "observed_output": e2_hit.get("output"), "expected_output": e2_hit.get("expected_output"), "program": e2_hit.get("source"),
                                                                 "how": "compile the program against /repo (cargo build) and run it"})
         print(f"VIOLATION property={prop} replay={path}")
         rc = 1
@@ -431,6 +435,10 @@ def check_c19(prop, tier, seed):
     for c in cfgs:
         for pr in profiles:
             streams.append(engine.run_stream(c, pr, seed, t["nseq"], t["maxops"]))
+    for c in cfgs:
+        cs = engine.run_corpus(c)
+        if cs is not None:
+            streams.append(cs)
     pairs = C19_PAIRS
     if tier == "thorough":
         pairs = C19_PAIRS + [("rel-none", "rel-e", ["churn", "query", "clone"]), ("rel-none", "rel-w", ["churn", "query", "grow"]),
@@ -445,7 +453,8 @@ def check_c19(prop, tier, seed):
         # that IS a concrete failing input for this property
         c = cross_bad[0]
         path = write_replay(prop, "cross-config", {"property": prop, "kind": "cross-config", "base": c["base"], "other": c["other"],
-                                                   "profile": c["profile"], "differences": c["diffs"][:5], "crashed": c["crashed"],
+                                                   "profile": c["profile"], "seed": seed, "nseq": t["nseq"], "maxops": t["maxops"],
+                                                   "differences": c["diffs"][:5], "crashed": c["crashed"],
                                                    "note": "the same operation list gives different observations under two configurations that should only differ in what the feature documents"})
         print(f"VIOLATION property={prop} replay={path}")
         engine.write_evidence(prop, tier, seed, lean, streams, 1, [], extra, t0)
